@@ -23,7 +23,7 @@ WORK = os.path.join(ROOT, ".work")
 HARNESS_DIR = os.path.join(ROOT, "harness")
 CFG = "--cfg excsn_fibre_verif"
 
-TIER_CAP = {"quick": 600, "thorough": 5400}  # per-harness wall cap (s)
+TIER_CAP = {"quick": 600, "thorough": 2400}  # per-harness wall cap (s)
 MAX_JOBS = int(os.environ.get("VERIF_JOBS", "7"))
 
 
